@@ -141,10 +141,12 @@ pub fn static_kind(kind: &str) -> &'static str {
 /// Builds the source and the iterator of `kind`, hands it to the visitor, checks the source afterwards.
 /// `range`: explicit bounds for the range kind (boundary grid).
 pub fn with_kind<V: Visitor>(kind: &str, len: usize, salt: u64, hint: Hint, range: Option<(usize, usize)>, v: V) -> (V::Out, SrcInfo, Vec<Violation>) {
+    let tmk = std::time::Instant::now();
     let kind = static_kind(kind);
     let len = snap_len(kind, len);
     ledger_reset(len.saturating_add(8), salt);
     probe_reset();
+    if std::env::var("OCV_TIMING").is_ok() { eprintln!(" reset done {:?}", tmk.elapsed()); }
     let mut viol = Vec::new();
     match kind {
         "slice" | "vec_ref" => {
